@@ -264,7 +264,17 @@ func (w *c06World) liveNode(l string, steps []c06Step) dom.Node {
 // "Put stores the node it is given" — what later writes through one of its positions do to the others is aliasing
 // the property does not speak about.
 func (w *c06World) writesIntoShared(op c06Op) bool {
-	if len(w.shared) == 0 {
+	// the object this very write hands over again counts as shared already: writing it below one of its own
+	// positions would modify it (and make the document cyclic)
+	extra := map[uintptr]bool{}
+	if n := w.reused(op); n != nil {
+		var mut []dom.Node
+		mutableNodes(n, map[uintptr]bool{}, &mut)
+		for _, m := range mut {
+			extra[nodeID(m)] = true
+		}
+	}
+	if len(w.shared) == 0 && len(extra) == 0 {
 		return false
 	}
 	exists := false
@@ -281,7 +291,7 @@ func (w *c06World) writesIntoShared(op c06Op) bool {
 			last = len(steps)
 		}
 		for k := 1; k <= last; k++ {
-			if n := w.liveNode(op.L, steps[:k]); n != nil && !n.IsLeaf() && w.shared[nodeID(n)] {
+			if n := w.liveNode(op.L, steps[:k]); n != nil && !n.IsLeaf() && (w.shared[nodeID(n)] || extra[nodeID(n)]) {
 				return true
 			}
 		}
@@ -1193,7 +1203,15 @@ func c06Sweep(c *Ctx, w *c06World, op c06Op, nth int) bool {
 				}
 			}
 		}
-		for k, v := range want {
+		wantKeys := make([]lp, 0, len(want))
+		for k := range want {
+			wantKeys = append(wantKeys, k)
+		}
+		sort.Slice(wantKeys, func(i, j int) bool {
+			return wantKeys[i].l < wantKeys[j].l || (wantKeys[i].l == wantKeys[j].l && wantKeys[i].p < wantKeys[j].p)
+		})
+		for _, k := range wantKeys {
+			v := want[k]
 			n := w.ov.Lookup(k.l, k.p)
 			if n == nil || !n.IsLeaf() || canon(scalarWire(n.(dom.Leaf).Value())) != v {
 				ok = c.Direct("lookup-sees-only-that-layer(every leaf after every write)", false,
